@@ -472,6 +472,10 @@ impl Pairs {
         d.push(mk(0, b'X', &[(2, 50), (2, 50)], b""));
         d.push(mk(0, b'T', &[], b"Hi"));
         d.push(mk(0, b'@', &[(2, 20), (2, 20)], b"Hi"));
+        // text across the right and the lower edge of the screen, and starting in the last column / row
+        d.push(mk(0, b'@', &[(2, 636), (2, 345)], b"Hi"));
+        d.push(mk(0, b'@', &[(2, 639), (2, 349)], b"Hi"));
+        d.push(mk(0, b'@', &[(2, 633), (2, 100)], b"Hi"));
         d.push(mk(1, b'P', &[(2, 20), (2, 20), (2, 0), (1, 0)], b""));
         d.push(mk(1, b'G', &[(2, 10), (2, 10), (2, 50), (2, 50), (2, 0), (2, 100)], b""));
         d.push(mk(1, b'U', &[(2, 20), (2, 20), (2, 100), (2, 60), (2, 65), (1, 0), (1, 0)], b"<>Ab<>cmd^M"));
